@@ -548,3 +548,341 @@ fn c09_integer_consumers_representation_independent() {
     kani::cover!(v < 0);
     core::mem::forget((m, b));
 }
+
+// ---- thorough tier: more literal divisors / multipliers (generated) ----
+
+//@ tier: thorough
+//@ funcs: <Num as Rem>::rem
+//@ bounds: all isize dividends; divisor = 4
+//@ assume: divisor != 0 (guarded by Val::rem)
+//@ asserts: Int % Int is Int(x rem y), truncated division
+#[kani::proof]
+#[kani::unwind(8)]
+fn c09_rem_by_p4_t() {
+    let x: isize = kani::any();
+    rem_one(x, 4);
+    kani::cover!(x == isize::MIN);
+    kani::cover!(x == -7);
+}
+
+//@ tier: thorough
+//@ funcs: <Num as Mul>::mul, num::int_or_big
+//@ bounds: all isize multiplicands; multiplier = 4, on either side
+//@ asserts: Int * Int is Int(v) with v == x * y (i128 model) exactly when the product fits isize, BigInt exactly when it does not
+#[kani::proof]
+#[kani::unwind(8)]
+#[kani::stub(<BigInt as core::ops::Mul<BigInt>>::mul, big_dummy2)]
+fn c09_mul_by_p4_t() {
+    let x: isize = kani::any();
+    mul_one(x, 4);
+    kani::cover!(x == isize::MIN);
+    kani::cover!(x == isize::MAX / 2 + 1);
+}
+
+//@ tier: thorough
+//@ funcs: <Num as Rem>::rem
+//@ bounds: all isize dividends; divisor = 5
+//@ assume: divisor != 0 (guarded by Val::rem)
+//@ asserts: Int % Int is Int(x rem y), truncated division
+#[kani::proof]
+#[kani::unwind(8)]
+fn c09_rem_by_p5_t() {
+    let x: isize = kani::any();
+    rem_one(x, 5);
+    kani::cover!(x == isize::MIN);
+    kani::cover!(x == -7);
+}
+
+//@ tier: thorough
+//@ funcs: <Num as Mul>::mul, num::int_or_big
+//@ bounds: all isize multiplicands; multiplier = 5, on either side
+//@ asserts: Int * Int is Int(v) with v == x * y (i128 model) exactly when the product fits isize, BigInt exactly when it does not
+#[kani::proof]
+#[kani::unwind(8)]
+#[kani::stub(<BigInt as core::ops::Mul<BigInt>>::mul, big_dummy2)]
+fn c09_mul_by_p5_t() {
+    let x: isize = kani::any();
+    mul_one(x, 5);
+    kani::cover!(x == isize::MIN);
+    kani::cover!(x == isize::MAX / 2 + 1);
+}
+
+//@ tier: thorough
+//@ funcs: <Num as Rem>::rem
+//@ bounds: all isize dividends; divisor = 16
+//@ assume: divisor != 0 (guarded by Val::rem)
+//@ asserts: Int % Int is Int(x rem y), truncated division
+#[kani::proof]
+#[kani::unwind(8)]
+fn c09_rem_by_p16_t() {
+    let x: isize = kani::any();
+    rem_one(x, 16);
+    kani::cover!(x == isize::MIN);
+    kani::cover!(x == -7);
+}
+
+//@ tier: thorough
+//@ funcs: <Num as Mul>::mul, num::int_or_big
+//@ bounds: all isize multiplicands; multiplier = 16, on either side
+//@ asserts: Int * Int is Int(v) with v == x * y (i128 model) exactly when the product fits isize, BigInt exactly when it does not
+#[kani::proof]
+#[kani::unwind(8)]
+#[kani::stub(<BigInt as core::ops::Mul<BigInt>>::mul, big_dummy2)]
+fn c09_mul_by_p16_t() {
+    let x: isize = kani::any();
+    mul_one(x, 16);
+    kani::cover!(x == isize::MIN);
+    kani::cover!(x == isize::MAX / 2 + 1);
+}
+
+//@ tier: thorough
+//@ funcs: <Num as Rem>::rem
+//@ bounds: all isize dividends; divisor = 100
+//@ assume: divisor != 0 (guarded by Val::rem)
+//@ asserts: Int % Int is Int(x rem y), truncated division
+#[kani::proof]
+#[kani::unwind(8)]
+fn c09_rem_by_p100_t() {
+    let x: isize = kani::any();
+    rem_one(x, 100);
+    kani::cover!(x == isize::MIN);
+    kani::cover!(x == -7);
+}
+
+//@ tier: thorough
+//@ funcs: <Num as Mul>::mul, num::int_or_big
+//@ bounds: all isize multiplicands; multiplier = 100, on either side
+//@ asserts: Int * Int is Int(v) with v == x * y (i128 model) exactly when the product fits isize, BigInt exactly when it does not
+#[kani::proof]
+#[kani::unwind(8)]
+#[kani::stub(<BigInt as core::ops::Mul<BigInt>>::mul, big_dummy2)]
+fn c09_mul_by_p100_t() {
+    let x: isize = kani::any();
+    mul_one(x, 100);
+    kani::cover!(x == isize::MIN);
+    kani::cover!(x == isize::MAX / 2 + 1);
+}
+
+//@ tier: thorough
+//@ funcs: <Num as Rem>::rem
+//@ bounds: all isize dividends; divisor = 255
+//@ assume: divisor != 0 (guarded by Val::rem)
+//@ asserts: Int % Int is Int(x rem y), truncated division
+#[kani::proof]
+#[kani::unwind(8)]
+fn c09_rem_by_p255_t() {
+    let x: isize = kani::any();
+    rem_one(x, 255);
+    kani::cover!(x == isize::MIN);
+    kani::cover!(x == -7);
+}
+
+//@ tier: thorough
+//@ funcs: <Num as Mul>::mul, num::int_or_big
+//@ bounds: all isize multiplicands; multiplier = 255, on either side
+//@ asserts: Int * Int is Int(v) with v == x * y (i128 model) exactly when the product fits isize, BigInt exactly when it does not
+#[kani::proof]
+#[kani::unwind(8)]
+#[kani::stub(<BigInt as core::ops::Mul<BigInt>>::mul, big_dummy2)]
+fn c09_mul_by_p255_t() {
+    let x: isize = kani::any();
+    mul_one(x, 255);
+    kani::cover!(x == isize::MIN);
+    kani::cover!(x == isize::MAX / 2 + 1);
+}
+
+//@ tier: thorough
+//@ funcs: <Num as Rem>::rem
+//@ bounds: all isize dividends; divisor = 256
+//@ assume: divisor != 0 (guarded by Val::rem)
+//@ asserts: Int % Int is Int(x rem y), truncated division
+#[kani::proof]
+#[kani::unwind(8)]
+fn c09_rem_by_p256_t() {
+    let x: isize = kani::any();
+    rem_one(x, 256);
+    kani::cover!(x == isize::MIN);
+    kani::cover!(x == -7);
+}
+
+//@ tier: thorough
+//@ funcs: <Num as Mul>::mul, num::int_or_big
+//@ bounds: all isize multiplicands; multiplier = 256, on either side
+//@ asserts: Int * Int is Int(v) with v == x * y (i128 model) exactly when the product fits isize, BigInt exactly when it does not
+#[kani::proof]
+#[kani::unwind(8)]
+#[kani::stub(<BigInt as core::ops::Mul<BigInt>>::mul, big_dummy2)]
+fn c09_mul_by_p256_t() {
+    let x: isize = kani::any();
+    mul_one(x, 256);
+    kani::cover!(x == isize::MIN);
+    kani::cover!(x == isize::MAX / 2 + 1);
+}
+
+//@ tier: thorough
+//@ funcs: <Num as Rem>::rem
+//@ bounds: all isize dividends; divisor = 65536
+//@ assume: divisor != 0 (guarded by Val::rem)
+//@ asserts: Int % Int is Int(x rem y), truncated division
+#[kani::proof]
+#[kani::unwind(8)]
+fn c09_rem_by_p65536_t() {
+    let x: isize = kani::any();
+    rem_one(x, 65536);
+    kani::cover!(x == isize::MIN);
+    kani::cover!(x == -7);
+}
+
+//@ tier: thorough
+//@ funcs: <Num as Mul>::mul, num::int_or_big
+//@ bounds: all isize multiplicands; multiplier = 65536, on either side
+//@ asserts: Int * Int is Int(v) with v == x * y (i128 model) exactly when the product fits isize, BigInt exactly when it does not
+#[kani::proof]
+#[kani::unwind(8)]
+#[kani::stub(<BigInt as core::ops::Mul<BigInt>>::mul, big_dummy2)]
+fn c09_mul_by_p65536_t() {
+    let x: isize = kani::any();
+    mul_one(x, 65536);
+    kani::cover!(x == isize::MIN);
+    kani::cover!(x == isize::MAX / 2 + 1);
+}
+
+//@ tier: thorough
+//@ funcs: <Num as Rem>::rem
+//@ bounds: all isize dividends; divisor = 1000
+//@ assume: divisor != 0 (guarded by Val::rem)
+//@ asserts: Int % Int is Int(x rem y), truncated division
+#[kani::proof]
+#[kani::unwind(8)]
+fn c09_rem_by_p1000_t() {
+    let x: isize = kani::any();
+    rem_one(x, 1000);
+    kani::cover!(x == isize::MIN);
+    kani::cover!(x == -7);
+}
+
+//@ tier: thorough
+//@ funcs: <Num as Mul>::mul, num::int_or_big
+//@ bounds: all isize multiplicands; multiplier = 1000, on either side
+//@ asserts: Int * Int is Int(v) with v == x * y (i128 model) exactly when the product fits isize, BigInt exactly when it does not
+#[kani::proof]
+#[kani::unwind(8)]
+#[kani::stub(<BigInt as core::ops::Mul<BigInt>>::mul, big_dummy2)]
+fn c09_mul_by_p1000_t() {
+    let x: isize = kani::any();
+    mul_one(x, 1000);
+    kani::cover!(x == isize::MIN);
+    kani::cover!(x == isize::MAX / 2 + 1);
+}
+
+//@ tier: thorough
+//@ funcs: <Num as Rem>::rem
+//@ bounds: all isize dividends; divisor = -3
+//@ assume: divisor != 0 (guarded by Val::rem)
+//@ asserts: Int % Int is Int(x rem y), truncated division
+#[kani::proof]
+#[kani::unwind(8)]
+fn c09_rem_by_m3_t() {
+    let x: isize = kani::any();
+    rem_one(x, -3);
+    kani::cover!(x == isize::MIN);
+    kani::cover!(x == -7);
+}
+
+//@ tier: thorough
+//@ funcs: <Num as Mul>::mul, num::int_or_big
+//@ bounds: all isize multiplicands; multiplier = -3, on either side
+//@ asserts: Int * Int is Int(v) with v == x * y (i128 model) exactly when the product fits isize, BigInt exactly when it does not
+#[kani::proof]
+#[kani::unwind(8)]
+#[kani::stub(<BigInt as core::ops::Mul<BigInt>>::mul, big_dummy2)]
+fn c09_mul_by_m3_t() {
+    let x: isize = kani::any();
+    mul_one(x, -3);
+    kani::cover!(x == isize::MIN);
+    kani::cover!(x == isize::MAX / 2 + 1);
+}
+
+//@ tier: thorough
+//@ funcs: <Num as Rem>::rem
+//@ bounds: all isize dividends; divisor = -7
+//@ assume: divisor != 0 (guarded by Val::rem)
+//@ asserts: Int % Int is Int(x rem y), truncated division
+#[kani::proof]
+#[kani::unwind(8)]
+fn c09_rem_by_m7_t() {
+    let x: isize = kani::any();
+    rem_one(x, -7);
+    kani::cover!(x == isize::MIN);
+    kani::cover!(x == -7);
+}
+
+//@ tier: thorough
+//@ funcs: <Num as Mul>::mul, num::int_or_big
+//@ bounds: all isize multiplicands; multiplier = -7, on either side
+//@ asserts: Int * Int is Int(v) with v == x * y (i128 model) exactly when the product fits isize, BigInt exactly when it does not
+#[kani::proof]
+#[kani::unwind(8)]
+#[kani::stub(<BigInt as core::ops::Mul<BigInt>>::mul, big_dummy2)]
+fn c09_mul_by_m7_t() {
+    let x: isize = kani::any();
+    mul_one(x, -7);
+    kani::cover!(x == isize::MIN);
+    kani::cover!(x == isize::MAX / 2 + 1);
+}
+
+//@ tier: thorough
+//@ funcs: <Num as Rem>::rem
+//@ bounds: all isize dividends; divisor = 11
+//@ assume: divisor != 0 (guarded by Val::rem)
+//@ asserts: Int % Int is Int(x rem y), truncated division
+#[kani::proof]
+#[kani::unwind(8)]
+fn c09_rem_by_p11_t() {
+    let x: isize = kani::any();
+    rem_one(x, 11);
+    kani::cover!(x == isize::MIN);
+    kani::cover!(x == -7);
+}
+
+//@ tier: thorough
+//@ funcs: <Num as Mul>::mul, num::int_or_big
+//@ bounds: all isize multiplicands; multiplier = 11, on either side
+//@ asserts: Int * Int is Int(v) with v == x * y (i128 model) exactly when the product fits isize, BigInt exactly when it does not
+#[kani::proof]
+#[kani::unwind(8)]
+#[kani::stub(<BigInt as core::ops::Mul<BigInt>>::mul, big_dummy2)]
+fn c09_mul_by_p11_t() {
+    let x: isize = kani::any();
+    mul_one(x, 11);
+    kani::cover!(x == isize::MIN);
+    kani::cover!(x == isize::MAX / 2 + 1);
+}
+
+//@ tier: thorough
+//@ funcs: <Num as Rem>::rem
+//@ bounds: all isize dividends; divisor = 4294967296
+//@ assume: divisor != 0 (guarded by Val::rem)
+//@ asserts: Int % Int is Int(x rem y), truncated division
+#[kani::proof]
+#[kani::unwind(8)]
+fn c09_rem_by_p4294967296_t() {
+    let x: isize = kani::any();
+    rem_one(x, 4294967296);
+    kani::cover!(x == isize::MIN);
+    kani::cover!(x == -7);
+}
+
+//@ tier: thorough
+//@ funcs: <Num as Mul>::mul, num::int_or_big
+//@ bounds: all isize multiplicands; multiplier = 4294967296, on either side
+//@ asserts: Int * Int is Int(v) with v == x * y (i128 model) exactly when the product fits isize, BigInt exactly when it does not
+#[kani::proof]
+#[kani::unwind(8)]
+#[kani::stub(<BigInt as core::ops::Mul<BigInt>>::mul, big_dummy2)]
+fn c09_mul_by_p4294967296_t() {
+    let x: isize = kani::any();
+    mul_one(x, 4294967296);
+    kani::cover!(x == isize::MIN);
+    kani::cover!(x == isize::MAX / 2 + 1);
+}
